@@ -25,9 +25,18 @@ def global_axioms():
     return ax
 
 
-def to_smt2(obl, with_axioms=True):
+def _top_forall(h):
+    return z3.is_quantifier(h) and h.is_forall()
+
+
+def to_smt2(obl, with_axioms=True, small=False, inst=False):
     s = z3.Solver()
-    for h in obl.hyps:
+    # small: the hypotheses without the top-level universally quantified ones, plus their instances at the goal's
+    # terms.  Dropping hypotheses is sound for a proof attempt.
+    hyps = [x for x in obl.hyps if not _top_forall(x)] if small else list(obl.hyps)
+    if inst or small:
+        hyps += obl.instances()
+    for h in hyps:
         s.add(h)
     s.add(z3.Not(obl.goal))
     text = s.to_smt2()
@@ -155,41 +164,67 @@ def _relaxed_check(text, timeout_ms, want_model):
 
 
 def _cvc5_check(text, timeout_ms):
-    import cvc5
+    """cvc5 as a separate process (hard wall-clock limit: a stuck solver can never block a check)"""
+    import subprocess
     t0 = time.time()
     try:
-        slv = cvc5.Solver()
-        slv.setOption('tlimit-per', str(timeout_ms))
-        slv.setOption('produce-models', 'false')
-        parser = cvc5.InputParser(slv)
-        parser.setStringInput(cvc5.InputLanguage.SMT_LIB_2_6, '(set-logic ALL)\n' + text.replace('(check-sat)', ''), 'obl')
-        sm = parser.getSymbolManager()
-        while True:
-            cmd = parser.nextCommand()
-            if cmd.isNull():
-                break
-            cmd.invoke(slv, sm)
-        r = slv.checkSat()
-        st = 'unsat' if r.isUnsat() else ('sat' if r.isSat() else 'unknown')
-        return {'status': st, 'time': time.time() - t0, 'solver': 'cvc5-1.4'}
+        p = subprocess.run(['/usr/bin/cvc5', '--lang=smt2', '--arrays-exp', f'--tlimit={timeout_ms}', '-'],
+                           input='(set-logic ALL)\n' + text, capture_output=True, text=True,
+                           timeout=timeout_ms / 1000.0 + 5)
+        out = (p.stdout or '').strip().splitlines()
+        st = out[0].strip() if out else 'unknown'
+        if st not in ('sat', 'unsat'):
+            return {'status': 'unknown', 'time': time.time() - t0, 'solver': 'cvc5-1.0.3',
+                    'reason': ((p.stdout or '') + (p.stderr or ''))[:200]}
+        return {'status': st, 'time': time.time() - t0, 'solver': 'cvc5-1.0.3'}
+    except subprocess.TimeoutExpired:
+        return {'status': 'unknown', 'time': time.time() - t0, 'solver': 'cvc5-1.0.3', 'reason': 'wall-clock timeout'}
     except Exception as ex:   # noqa
-        return {'status': 'unknown', 'time': time.time() - t0, 'solver': 'cvc5-1.4', 'reason': f'cvc5 error: {ex}'[:300]}
+        return {'status': 'unknown', 'time': time.time() - t0, 'solver': 'cvc5-1.0.3', 'reason': f'cvc5 error: {ex}'[:200]}
+
+
+_OBLS = []
 
 
 def _work(job):
+    """runs in a forked worker: the obligation's ASTs are inherited from the parent, serialisation happens here"""
     z3.set_param('warning', False)
-    oid, text, tier, want_model = job
-    res = {'id': oid, 'runs': []}
+    idx, tier = job
+    o = _OBLS[idx]
+    want_model = not o.expect_sat
+    res = {'id': idx, 'runs': []}
+    text = None
+
+    def full_text():
+        nonlocal text
+        if text is None:
+            text = to_smt2(o)
+        return text
     if not want_model:
         # vacuity canary: only `unsat` (contradictory hypotheses) is bad; keep it cheap
-        r = _z3_check(text, 1500, False)
+        r = _z3_check(full_text(), 1500, False)
         res['runs'].append(r)
         res.update(status=r['status'], model=None, time=r['time'], backend=r['solver'])
         return res
-    r = _z3_check(text, 4000, want_model)
+    # 1. plain attempt, short
+    r = _z3_check(to_smt2(o), 2500, want_model)
     res['runs'].append({k: v for k, v in r.items() if k != 'model'})
     status = r['status']
     model = r.get('model')
+    if status == 'unknown':
+        # 2. without the top-level universally quantified hypotheses, with their instances at the goal's terms
+        small_text = to_smt2(o, small=True)
+        r0 = _z3_check(small_text, 10000, False)
+        r0['solver'] += ' (instances only)'
+        res['runs'].append(r0)
+        if r0['status'] != 'unsat':
+            r0 = _cvc5_check(small_text, 8000)
+            r0['solver'] += ' (instances only)'
+            res['runs'].append(r0)
+        if r0['status'] == 'unsat':
+            res.update(status='unsat', model=None, time=sum(x['time'] for x in res['runs']), backend=r0['solver'])
+            return res
+        text = to_smt2(o, inst=True)      # 3. everything plus the instances
     cand = None
     if status == 'unknown':
         r3 = _cvc5_check(text, CVC5_TIMEOUT_MS if tier == 'thorough' else 20000)
@@ -215,7 +250,7 @@ def _work(job):
         if r2['status'] != 'unknown':
             status, model = r2['status'], r2.get('model')
     if status in ('sat', 'unsat') and tier == 'thorough' and not any(x['solver'].startswith('cvc5') for x in res['runs']):
-        r3 = _cvc5_check(text, 20000)
+        r3 = _cvc5_check(text or full_text(), 20000)
         res['runs'].append(r3)
         if r3['status'] in ('sat', 'unsat') and r3['status'] != status:
             status = 'disagree'
@@ -230,17 +265,15 @@ def _work(job):
 
 
 def discharge(obligations, tier='quick', workers=None):
-    """returns {obligation id (with path): result}"""
-    jobs = []
-    for i, o in enumerate(obligations):
-        jobs.append((i, to_smt2(o), tier, not o.expect_sat))
-    if not jobs:
+    """results in the order of the obligations"""
+    global _OBLS
+    if not obligations:
         return []
+    _OBLS = list(obligations)
+    jobs = [(i, tier) for i in range(len(_OBLS))]
     workers = workers or WORKERS
     if len(jobs) <= 2 or workers <= 1:
-        results = [_work(j) for j in jobs]
-    else:
-        ctx = mp.get_context('fork')
-        with ctx.Pool(min(workers, len(jobs))) as pool:
-            results = pool.map(_work, jobs, chunksize=1)
-    return results
+        return [_work(j) for j in jobs]
+    ctx = mp.get_context('fork')
+    with ctx.Pool(min(workers, len(jobs))) as pool:
+        return pool.map(_work, jobs, chunksize=1)
